@@ -22,7 +22,7 @@ import mmdump
 import peggen
 
 SPEC_IMPORTS = ("From TxV Require Import Core.Base Core.Show Model.PegSyntax Model.Peg Model.PegShow Model.Build Model.Spec.\n"
-                "From TxV Require Proofs.PegTerm.\nOpen Scope string_scope.\n" + r"""
+                "From TxV Require Proofs.PegTerm Proofs.SpecCmt.\nOpen Scope string_scope.\n" + r"""
 Fixpoint show_ext_tree (t : stree) : list string :=
   match t with
   | ST _ _ _ _ => []
@@ -56,20 +56,24 @@ Definition show_spec_build (g : grammar) (c : config) (mm : list ninfo) (tbl : l
   | SOut => "('abort',0)"
   end.
 Definition show_wfg (g : grammar) (tbl : list ((nat * nat) * nat)) : string :=
-  (if wfg g 24 then "T" else "F") ++
+  (if (wfg g 24 || SpecCmt.wfgc g 24)%bool then "T" else "F") ++
   (if existsb (fun e => Nat.eqb (snd e) 0) tbl then "z" else "") ++
   (if PegTerm.terminating PegTerm.none_nullable g then "t" else "").
 """)
 
 
+# the reference side gets |input| + 2 more fuel than the interpreter (C01_refinement_comments); inputs are <= 60 characters
+SPEC_FUEL = bc.FUEL + 64
+
+
 def spec_expr(ci, res, run, text):
-    return "show_spec g%d c%d %s %d %s" % (ci, ci, pegdump.coq_table(run["table"]), bc.FUEL, pegdump.coq_str(text))
+    return "show_spec g%d c%d %s %d %s" % (ci, ci, pegdump.coq_table(run["table"]), SPEC_FUEL, pegdump.coq_str(text))
 
 
 def spec_build_expr(ci, res, run, text):
     return "show_spec_build g%d c%d m%d %s %s %s %s %d %s" % (
         ci, ci, ci, pegdump.coq_table(run["table"]), mmdump.coq_gtable(run["gtable"]),
-        "true" if res["auto"] else "false", "true" if res["use_grp"] else "false", bc.FUEL, pegdump.coq_str(text))
+        "true" if res["auto"] else "false", "true" if res["use_grp"] else "false", SPEC_FUEL, pegdump.coq_str(text))
 
 
 def wfg_expr(ci, res, run, text):
@@ -141,7 +145,11 @@ def classify_dump(dump):
     prod = prod_table(dump)
     nodes = dump["nodes"]
     if dump["comments"] is not None:
-        tags.add("comments")
+        # SpecCmt.wfgc: the Comment rule is a single regex terminal and the table never changes the whitespace mode
+        if nodes[dump["comments"]]["kind"] != "KRegex":
+            tags.add("comments_complex")
+        if any(nd["ws"] is not None or nd["skipws"] is not None or nd["eolterm"] for nd in nodes):
+            tags.add("comments_modifiers")
     if any(nd["eolterm"] for nd in nodes) and any(nd["ws"] is not None for nd in nodes):
         tags.add("eolterm_ws")         # eol_ws_ok: a rule-level ws inside an eolterm repetition is restored wrongly
     for nd in nodes:
@@ -442,6 +450,8 @@ def run(chk):
             if wf_coq != (not tags):
                 disagreements.append({"case": cinfo, "impl": sorted(tags), "model": "Coq wfg = %s" % mv[3]})
             ctags = sorted(tags) + (["empty_regex_match"] if zero else [])
+            if res["dump"]["comments"] is not None and not res["dump"]["skipws"]:
+                ctags.append("comments_noskipws")        # hypothesis of C01_refinement_comments (config, not table)
             has_sep = "separator" in ftags
             ttags = ctags + (["separator"] if has_sep else [])      # tree / model level: the trailing-separator variant
             # ---- (b) the reference semantics vs the implementation
@@ -456,7 +466,7 @@ def run(chk):
                 else:
                     bad = "acceptance differs: reference semantics %s, implementation %s" % (
                         "accept" if sp["ok"] else "reject", tree[:80])
-            elif accepted and not tags and not zero and "P:" + sp["qtree"] != tree:
+            elif accepted and not ctags and "P:" + sp["qtree"] != tree:
                 # inside the class the tree is the trailing-separator variant's (C01_refinement_partial)
                 bad = "parse tree differs from the trailing-separator variant of the reference: %s, implementation %s" % (sp["qtree"][:200], tree[2:202])
                 btags = []
@@ -481,7 +491,7 @@ def run(chk):
             if bad:
                 chk.stat("impl deviates from the reference semantics")
                 failures.append({"case": cinfo, "what": bad, "tags": btags, "impl": [tree[:300], im], "model": mv[1][:300]})
-            elif not tags and not zero:
+            elif not ctags:
                 chk.stat("cases inside the theorem's class agreeing with the reference")
             if chk.cov["evaluations"] % 80 == 7:
                 chk.sample({"grammar": case["grammar"], "input": text, "impl": tree[:120], "spec": mv[1][:120]})
